@@ -270,6 +270,26 @@ func TestC20(t *testing.T) {
 				return fmt.Sprintf("query %T(%v) vendor %d on %s tree {%s} (app %d)", query, query, vendor, how, refcodec.Describe(m.Nodes), app)
 			}
 
+			// a number no AVP code can be: an int that differs from a present code by a multiple
+			// of 2^32 finds nothing (never the AVP whose code it would be after truncation)
+			if form == 0 && len(want) > 0 && q == 0 {
+				for _, far := range []int{int(expectCode) + 1<<32, int(expectCode) - 1<<32, int(expectCode) + 5<<32} {
+					var g1 *diam.AVP
+					var gs []*diam.AVP
+					if p, bad := guard(func() {
+						g1, _ = dm.FindAVP(far, vendor)
+						gs, _ = dm.FindAVPs(far, vendor)
+					}); bad {
+						c.Fail(sig("panic"), nil, nil, "a search for int(%d) panicked: %s; %s", far, p, desc())
+						return
+					}
+					if g1 != nil || len(gs) != 0 {
+						c.Fail(ev.Sig{"op": "found-for-impossible-code", "form": form}, nil, nil, "a search for the number %d (no AVP code: codes are 32 bits) returned the AVP(s) with code %d: FindAVP %v, FindAVPs %d; %s", far, expectCode, g1 != nil, len(gs), desc())
+						return
+					}
+				}
+				c.Event("impossible_codes_checked", 3)
+			}
 			// FindAVPs
 			var got []*diam.AVP
 			var err error
